@@ -579,6 +579,8 @@ func (c *cpuEvictor) getBEPodEvictInfoAndSort(evictionPolicy string, thresholdCo
 			continue
 		}
 		bePodInfo := &qosmanagerUtil.PodEvictInfo{Pod: podMeta.Pod}
+		// an invalid annotation counts as the implicit 0, as in the priority based lists
+		bePodInfo.EvictionPriority, _ = apiext.GetPodEvictionPriority(podMeta.Pod)
 		queryMeta, err := metriccache.PodCPUUsageMetric.BuildQueryMeta(metriccache.MetricPropertiesFunc.Pod(string(pod.UID)))
 		if err == nil {
 			result, err := helpers.CollectPodMetricLast(c.metricCache, queryMeta, c.metricCollectInterval)
@@ -613,6 +615,9 @@ func (c *cpuEvictor) getBEPodEvictInfoAndSort(evictionPolicy string, thresholdCo
 	}
 
 	sort.Slice(bePodInfos, func(i, j int) bool {
+		if bePodInfos[i].EvictionPriority != bePodInfos[j].EvictionPriority {
+			return bePodInfos[i].EvictionPriority < bePodInfos[j].EvictionPriority
+		}
 		if bePodInfos[i].Pod.Spec.Priority == nil || bePodInfos[j].Pod.Spec.Priority == nil ||
 			*bePodInfos[i].Pod.Spec.Priority == *bePodInfos[j].Pod.Spec.Priority {
 			return bePodInfos[i].CpuUsage > bePodInfos[j].CpuUsage
